@@ -55,6 +55,9 @@ type DialScenario struct {
 	// every connection is used once more after a rest of 1.5 s (longer than the client Config's idle timeout when the spec
 	// advertises none: then the connection has no idle timeout of its own)
 	LateUse bool `json:"late_use,omitempty"`
+	// one spec value, several servers: odd dials go to another host name (the certificate is good for both); the
+	// fingerprint's server_name extension is empty, so each ClientHello names the host of its own dial
+	AltName bool `json:"alt_name,omitempty"`
 }
 
 func (s *DialScenario) KSeed() uint64 { return s.Seed }
@@ -216,6 +219,7 @@ func genDial(seed uint64, tier string) KScenario {
 		sc.Cfg.IdleMS = [2]int64{1000, 30000}
 		sc.LateUse = true
 	}
+	sc.AltName = sc.Dials > 1 && !sc.Early && r.P(0.3)
 	return sc
 }
 
@@ -263,8 +267,12 @@ func runDial(t *testing.T, ksc KScenario, res *KResult) {
 	}
 	// the fingerprint's ALPN list as the caller wrote it, before any dial
 	var alpn0 []byte
+	sniEmpty := false // the spec has a server_name extension and leaves the name to the dial
 	if nodes.Spec != nil && nodes.Spec.ClientHelloSpec != nil {
 		for _, e := range nodes.Spec.ClientHelloSpec.Extensions {
+			if s, ok := e.(*tls.SNIExtension); ok && s.ServerName == "" {
+				sniEmpty = true
+			}
 			if a, ok := e.(*tls.ALPNExtension); ok {
 				for _, p := range a.AlpnProtocols {
 					alpn0 = append(alpn0, byte(len(p)))
@@ -340,6 +348,14 @@ func runDial(t *testing.T, ksc KScenario, res *KResult) {
 					time.Sleep(3 * time.Second)
 				}
 			}
+		}
+		serverName := "localhost"
+		if sc.AltName && di%2 == 1 {
+			serverName = wAltServerName
+		}
+		if sc.AltName {
+			nodes.CTLS = nodes.CTLS.Clone()
+			nodes.CTLS.ServerName = serverName
 		}
 		before := len(w.Tap.Conns)
 		sentBefore := len(w.Log[0])
@@ -601,6 +617,17 @@ func runDial(t *testing.T, ksc KScenario, res *KResult) {
 				checkInitialFlight(w, nodes, sc, di, &dialCapture{conn: last, pnSkip: used, onlyPN: true}, report, res)
 			}
 		}
+		if sniEmpty || nodes.Spec == nil {
+			for _, e := range cp.conn.CH.Exts {
+				// body: 2-byte list length, name type 0, 2-byte name length, the name
+				if e.Type == 0 && (len(e.Body) < 5 || string(e.Body[5:]) != serverName) {
+					report("C11", "server name in the ClientHello is not the ServerName of this dial's tls.Config although the spec leaves the name empty", "dial #%d: wire %q, tls.Config %q", di, e.Body[min(5, len(e.Body)):], serverName)
+				}
+			}
+			if sc.AltName {
+				res.Probe("sni-follows-the-dial")
+			}
+		}
 		if alpn0 != nil {
 			for _, e := range cp.conn.CH.Exts {
 				// body: 2-byte list length, then the length-prefixed protocol names
@@ -852,6 +879,10 @@ func checkClientHello(w *World, n *Nodes, sc *DialScenario, di int, cp *dialCapt
 			}
 		}()
 		for _, e := range cs.Extensions {
+			if s, ok := e.(*tls.SNIExtension); ok && s.ServerName == "" {
+				// an empty server_name extension stands for "the host of the dial" (tls.Config.ServerName)
+				e = &tls.SNIExtension{ServerName: n.CTLS.ServerName}
+			}
 			l := e.Len()
 			if l < 4 {
 				continue
